@@ -390,7 +390,11 @@ def gen_stream(rng, idx, quick, seed, KdqTreeStreaming):
                 np.random.seed(seed_of(seed, idx, i))
                 try:
                     sh.update(cands[j].copy())
-                    dv = float(sh._test_dist) - float(sh._critical_dist)
+                    td = getattr(sh, "_test_dist", None)
+                    if td is None:      # the private attribute is absent / unset in this tree: divergence from the public per-leaf counts
+                        lc = leaf_counts_from_df(sh)
+                        td = spec_kl(lc[0], lc[1])
+                    dv = float(td) - float(sh._critical_dist)
                 except Exception:
                     continue
                 key = dv if want else -dv
